@@ -1520,6 +1520,116 @@ def fuse_record_lists(index):
     return done
 
 
+# ---- local memo dictionaries ------------------------------------------------------------------------------------------------------
+def inline_local_memos(index):
+    """`D = {}` ... `if K not in D: D[K] = E` ... `D[K]`: a local dictionary that memoises the pure expression E per key K.  When E
+    depends on nothing but K and names that are not rebound inside the enclosing loop, `D[K]` is E: every read is replaced by E
+    and the dictionary disappears.  (E must not create signals or call anything with effects: creating it twice must be the same
+    as creating it once.)"""
+    import copy
+    done = {}
+    IMPURE = ("Signal", "Signal.like", "Memory", "Module", "Record")
+    for f in index.all_functions():
+        binds = {}
+        for n in _own_walk(f.node):
+            if isinstance(n, ast.Assign) and len(n.targets) == 1 and isinstance(n.targets[0], ast.Name):
+                binds.setdefault(n.targets[0].id, []).append(n)
+        for name, bs in binds.items():
+            if len(bs) != 1:
+                continue
+            v = bs[0].value
+            empty = (isinstance(v, ast.Dict) and not v.keys) or (isinstance(v, ast.Call) and isinstance(v.func, ast.Name) and v.func.id == "dict"
+                                                                 and not v.args and not v.keywords)
+            if not empty:
+                continue
+            parents = {}
+            for n in ast.walk(f.node):
+                for ch in ast.iter_child_nodes(n):
+                    parents[ch] = n
+            uses = [n for n in ast.walk(f.node) if isinstance(n, ast.Name) and n.id == name and n is not bs[0].targets[0]]
+            fills, reads, bad = [], [], False
+            for u in uses:
+                par = parents.get(u)
+                if isinstance(par, ast.Compare) and len(par.ops) == 1 and isinstance(par.ops[0], ast.NotIn) and par.comparators[0] is u:
+                    iff = parents.get(par)
+                    if isinstance(iff, ast.If) and iff.test is par and not iff.orelse and len(iff.body) == 1 and isinstance(iff.body[0], ast.Assign) and \
+                            len(iff.body[0].targets) == 1 and isinstance(iff.body[0].targets[0], ast.Subscript) and \
+                            isinstance(iff.body[0].targets[0].value, ast.Name) and iff.body[0].targets[0].value.id == name and \
+                            ast.dump(iff.body[0].targets[0].slice) == ast.dump(par.left):
+                        fills.append(iff)
+                        continue
+                    bad = True
+                elif isinstance(par, ast.Subscript) and par.value is u and isinstance(par.ctx, ast.Load):
+                    reads.append(par)
+                elif isinstance(par, ast.Subscript) and par.value is u and isinstance(par.ctx, ast.Store) and \
+                        any(parents.get(par) is iff.body[0] for iff in fills):
+                    continue
+                elif isinstance(par, ast.Subscript) and par.value is u and isinstance(par.ctx, ast.Store):
+                    continue            # checked against the fills below
+                else:
+                    bad = True
+            stores = [n for n in ast.walk(f.node) if isinstance(n, ast.Subscript) and isinstance(n.value, ast.Name) and n.value.id == name and
+                      isinstance(n.ctx, ast.Store)]
+            if bad or len(fills) != 1 or not reads or len(stores) != 1 or parents.get(stores[0]) is not fills[0].body[0]:
+                continue
+            iff = fills[0]
+            K, E = iff.test.left, iff.body[0].value
+            if any(ast.dump(r.slice) != ast.dump(K) for r in reads):
+                continue
+            if any(isinstance(c, ast.Call) and (ast.unparse(c.func) in IMPURE or (isinstance(c.func, ast.Attribute) and c.func.attr in _MUTATORS))
+                   for c in ast.walk(E)) or any(isinstance(c, (ast.NamedExpr, ast.Yield, ast.YieldFrom, ast.Await, ast.Lambda)) for c in ast.walk(E)):
+                continue
+            # E depends on K and on names that the enclosing loop does not rebind
+            loop = None
+            a = parents.get(iff)
+            while a is not None and a is not f.node:
+                if isinstance(a, (ast.For, ast.While)):
+                    loop = a
+                a = parents.get(a)
+            rebound = set()
+            if loop is not None:
+                rebound = {n.id for n in ast.walk(loop) if isinstance(n, ast.Name) and isinstance(n.ctx, ast.Store)}
+            knames = {n.id for n in ast.walk(K) if isinstance(n, ast.Name)}
+            comp_bound = {n.id for c in ast.walk(E) if isinstance(c, ast.comprehension) for n in ast.walk(c.target) if isinstance(n, ast.Name)}
+            enames = {n.id for n in ast.walk(E) if isinstance(n, ast.Name) and isinstance(n.ctx, ast.Load)} - comp_bound
+            if (enames - knames) & rebound:
+                continue
+            # every read comes after the fill in the same iteration: same block or nested below a later statement of that block
+            blk = None
+            for fld in ("body", "orelse", "finalbody"):
+                b = getattr(parents.get(iff), fld, None)
+                if isinstance(b, list) and iff in b:
+                    blk = b
+            if blk is None:
+                continue
+            after = set()
+            for st in blk[blk.index(iff) + 1:]:
+                after |= {id(x) for x in ast.walk(st)}
+            if not all(id(r) in after for r in reads):
+                continue
+
+            class R(ast.NodeTransformer):
+                def visit_Subscript(self, node):
+                    if any(node is r for r in reads):
+                        return ast.copy_location(copy.deepcopy(E), node)
+                    self.generic_visit(node)
+                    return node
+            R().visit(f.node)
+            blk.remove(iff)
+            if not blk:
+                blk.append(ast.Pass())
+            for blk2 in ast.walk(f.node):
+                for fld in ("body", "orelse", "finalbody"):
+                    b = getattr(blk2, fld, None)
+                    if isinstance(b, list) and bs[0] in b:
+                        b.remove(bs[0])
+                        if not b:
+                            b.append(ast.Pass())
+            ast.fix_missing_locations(f.node)
+            done.setdefault(f.site, []).append(name)
+    return done
+
+
 # ---- replicated unpacking ---------------------------------------------------------------------------------------------------------
 def desugar_replicated_unpack(index):
     """`a, b = (E for _ in range(2))` (or a list comprehension) with E not mentioning the loop variable evaluates E once per target,
